@@ -33,6 +33,7 @@ func init() {
 }
 
 func runC09(c *Ctx) {
+	runC09Deps(c)
 	const sp = "service/state"
 	pf := c.pkgFuncs(sp)
 	isWvs := func(f *ssa.Function) bool {
@@ -283,4 +284,162 @@ func runC09(c *Ctx) {
 	// the dispatcher joins
 	re := c.calls(conc, byMethod("Realize"))
 	c.check(len(re) == 1, "C09.commit-then-done", "dispatcher joins through Realize()", conc.Pos(), "one Realize", fmt.Sprintf("%d Realize calls", len(re)))
+}
+
+// runC09Deps: dependency bookkeeping of the virtual world state (rules added
+// after independently produced mutants were missed).
+func runC09Deps(c *Ctx) {
+	const pk = "service/state"
+	const rule = "C09.dependency-bookkeeping"
+	// (1) a world write-locker supersedes every earlier account locker
+	if fn := c.mustFn(pk, "worldVirtualContext", "setLocker"); fn != nil {
+		var mapSt, wlSt *ssa.Store
+		for _, fs := range fieldStoresAny([]*ssa.Function{fn}, "worldVirtualContext") {
+			switch fieldName(fs.Addr.X.Type(), fs.Addr.Field) {
+			case "lastAccountLocker":
+				mapSt = fs.Store
+			case "lastWorldLocker":
+				wlSt = fs.Store
+			}
+		}
+		ok := mapSt != nil && wlSt != nil && mapSt.Block() == wlSt.Block()
+		if ok {
+			_, isMk := mapSt.Val.(*ssa.MakeMap)
+			ok = isMk && render(wlSt.Val) == "$1"
+		}
+		c.check(ok, rule, "registering a world locker clears the per-account lockers", fn.Pos(), "lastAccountLocker = make(...); lastWorldLocker = wvs", "a world write-locker is registered without clearing the account lockers: a later transaction depends on a transaction from before the world lock instead of on the world locker")
+		if wlSt != nil {
+			c.requireAt(rule, "world locker registered only for the world id", wlSt, wSame("id == world", `^\$0$`, `^""$`))
+		}
+	}
+	// (2) duplicate lock requests keep the stronger lock
+	if fn := c.mustFn(pk, "", "applyLockRequests"); fn != nil {
+		n := 0
+		for _, fs := range fieldStores([]*ssa.Function{fn}, "lockedAccountState", "lock") {
+			v := render(fs.Store.Val)
+			if !strings.HasSuffix(v, ".Lock") {
+				continue
+			}
+			// the update of an existing entry (not the literal of a new one)
+			if _, isAlloc := fs.Addr.X.(*ssa.Alloc); isAlloc {
+				continue
+			}
+			n++
+			okG := false
+			for _, g := range guardsAt(fs.Store) {
+				p := predOf(g)
+				if p.Kind == "ge" && len(p.L.T) == 2 && p.L.K == -1 {
+					pos, neg := "", ""
+					for a, co := range p.L.T {
+						if co == 1 {
+							pos = a
+						} else if co == -1 {
+							neg = a
+						}
+					}
+					if strings.HasSuffix(pos, ".Lock") && strings.HasSuffix(neg, ".lock") {
+						okG = true
+					}
+				}
+			}
+			c.check(okG, rule, "a repeated lock request can only strengthen the lock", fs.Store.Pos(), "if las.lock < req.Lock { las.lock = req.Lock }", "a repeated request can weaken an account lock (write → read): the transaction then works on a read-only view and is not registered as the account's locker")
+		}
+		c.check(n == 1, rule, "lock merge site", fn.Pos(), "1", fmt.Sprint(n))
+		// world lock likewise
+		for _, fs := range fieldStores([]*ssa.Function{fn}, "worldVirtualState", "worldLock") {
+			okG := false
+			for _, g := range guardsAt(fs.Store) {
+				p := predOf(g)
+				if p.Kind == "ge" && len(p.L.T) == 2 && p.L.K == -1 {
+					for a, co := range p.L.T {
+						if co == 1 && strings.HasSuffix(a, ".Lock") {
+							okG = true
+						}
+					}
+				}
+			}
+			c.check(okG, rule, "a repeated world lock request can only strengthen the lock", fs.Store.Pos(), "if req.Lock > worldLock", "world lock can be weakened")
+		}
+	}
+	// (3) a child's base is the parent's committed snapshot
+	if fn := c.mustFn(pk, "worldVirtualState", "GetFuture"); fn != nil {
+		ok := false
+		for _, fs := range fieldStores([]*ssa.Function{fn}, "worldVirtualState", "base") {
+			ok = render(fs.Store.Val) == "$r.committed"
+		}
+		okP := false
+		for _, fs := range fieldStores([]*ssa.Function{fn}, "worldVirtualState", "parent") {
+			okP = render(fs.Store.Val) == "$r"
+		}
+		c.check(ok && okP, rule, "a future state starts from its parent's committed snapshot and links to the parent", fn.Pos(), "base = parent.committed; parent = wvs", "the child's base is not the parent's committed snapshot: it believes a base from before the parent executed is already realized and does not wait for its predecessors")
+	}
+	// (4) Commit publishes frozen copies
+	wl, _ := c.constVal(pk, "AccountWriteLock")
+	if fn := c.mustFn(pk, "worldVirtualState", "Commit"); fn != nil {
+		nState := 0
+		for _, fs := range fieldStores([]*ssa.Function{fn}, "lockedAccountState", "state") {
+			nState++
+			v := render(fs.Store.Val)
+			ok := strings.HasPrefix(v, "state.newAccountROState(") && strings.Contains(v, ".state.GetSnapshot()") || strings.Contains(v, ".depend.GetAccountROState(")
+			c.check(ok, rule, "a committed writer publishes a read-only copy of its account snapshot", fs.Store.Pos(), v, "Commit leaves "+v+" in the published account state")
+		}
+		c.check(nState == 2, rule, "Commit replaces the account state on both branches (own / inherited)", fn.Pos(), "2 stores", fmt.Sprintf("%d stores of las.state: a committed writer keeps the live shared account state, so a reader between two writers can see the later writer's changes", nState))
+		okW := false
+		for _, fs := range fieldStores([]*ssa.Function{fn}, "worldVirtualState", "committed") {
+			okW = render(fs.Store.Val) == "$r.worldVirtualContext.real.GetSnapshot()" || strings.HasSuffix(render(fs.Store.Val), ".real.GetSnapshot()")
+			c.requireAt(rule, "the committed world snapshot is published by the world write-locker", fs.Store, wEQ("worldLock == write", -wl, t(1, `^\$r\.worldLock$`)))
+		}
+		c.check(okW, rule, "a world write-locker publishes its committed snapshot when it commits", fn.Pos(), "committed = real.GetSnapshot()", "a committing world locker does not publish its snapshot: readers fall back to the stale base")
+		// before waking the waiters
+		for _, bc := range c.calls(fn, byMethod("Broadcast")) {
+			for _, fs := range fieldStores([]*ssa.Function{fn}, "worldVirtualState", "committed") {
+				_, reach := pathAvoiding(fn, bc.Instr, isInstr(fs.Store), nil)
+				c.check(!reach, rule, "results are published before the waiters are woken", bc.Pos(), "stores → Broadcast", "waiters are woken before the committed snapshot is stored")
+			}
+		}
+	}
+	// (5) Reset restores every write-locked account, also one realized after the snapshot was taken
+	if fn := c.mustFn(pk, "worldVirtualState", "Reset"); fn != nil {
+		resets := c.calls(fn, byMethod("Reset"))
+		var acct []callSite
+		for _, r := range resets {
+			rc, _ := callArgs(r.Common())
+			if rc != nil && strings.HasSuffix(render(rc), ".state") {
+				acct = append(acct, r)
+			}
+		}
+		c.check(len(acct) >= 2, rule, "Reset handles accounts with and without an entry in the snapshot", fn.Pos(), fmt.Sprintf("%d account resets", len(acct)), "Reset only restores accounts that were already realized when the snapshot was taken: changes to the others survive a rollback")
+		if len(acct) > 0 {
+			h := loopHeaderOf(acct[0].Instr.Block())
+			if h != nil {
+				isAcct := func(in ssa.Instruction) bool {
+					for _, a := range acct {
+						if a.Instr == in {
+							return true
+						}
+					}
+					return false
+				}
+				body := loopBody(h)
+				old := pathEdgeFilter
+				pathEdgeFilter = func(p, sb *ssa.BasicBlock) bool {
+					if !body[sb] {
+						return true
+					}
+					for _, g := range edgeGuard(p, sb) {
+						pd := predOf(g)
+						s := pd.String()
+						// not write-locked, or never realized (state == nil)
+						if (pd.Kind == "ne" && strings.Contains(s, ".lock")) || (pd.Kind == "same" && strings.Contains(s, ".state") && strings.Contains(s, "nil")) {
+							return true
+						}
+					}
+					return false
+				}
+				tr, by := pathAvoiding(fn, h.Instrs[len(h.Instrs)-1], func(in ssa.Instruction) bool { return in == h.Instrs[0] }, isAcct)
+				pathEdgeFilter = old
+				c.check(!by, rule, "every write-locked, realized account is reset", acct[0].Pos(), "skip only if not write-locked or not realized", "a write-locked account can be skipped by Reset ("+traceString(tr)+")")
+			}
+		}
+	}
 }
